@@ -10,12 +10,12 @@ import (
 	"time"
 
 	"github.com/mdzio/go-logging"
-	"verif/harness/core"
 	_ "verif/harness/ackq"
 	_ "verif/harness/broker"
 	_ "verif/harness/codec"
-	_ "verif/harness/topicstore"
+	"verif/harness/core"
 	"verif/harness/ring"
+	_ "verif/harness/topicstore"
 )
 
 func main() {
